@@ -158,6 +158,56 @@ ALLOW_MODULES = {
 ITER_METHODS = ('iter', 'keys', 'values', 'into_iter', 'drain', 'iter_mut', 'values_mut', 'into_keys', 'into_values', 'retain', 'extract_if')
 
 
+def _flows_only_into_profile(f, s, depth=3):
+    """the value produced by the wall-clock call `s` is only stored in a field of a type of an allow-listed module (the profiler's
+    statistics record) — possibly after further wall-clock arithmetic (`now - start`): it never reaches simulation state"""
+    d = s.dest
+    if d['pr']:
+        fl = [e for e in d['pr'] if e['k'] == 'field']
+        return bool(fl) and any(str(fl[-1].get('adt', '')).startswith(m) for m in ALLOW_MODULES)
+    work = [d['l']]
+    seen = set()
+    n_store = 0
+    while work:
+        l = work.pop()
+        if l in seen:
+            continue
+        seen.add(l)
+        for b in sorted(f.reachable()):
+            for st in f.stmts(b):
+                if st['k'] != 'assign':
+                    continue
+                r = st['r']
+                ops = ([r['o']] if r.get('o') else []) + [r[x] for x in ('a', 'b') if isinstance(r.get(x), dict)] + list(r.get('ops', []))
+                used = any(isinstance(o, dict) and o.get('k') in ('copy', 'move') and o['p']['l'] == l for o in ops) or \
+                    (r['k'] in ('ref', 'rawptr') and r['p']['l'] == l)
+                if not used:
+                    continue
+                fl = [e for e in st['p']['pr'] if e['k'] == 'field']
+                if fl and any(str(fl[-1].get('adt', '')).startswith(m) for m in ALLOW_MODULES):
+                    n_store += 1
+                elif not st['p']['pr'] and (r['k'] in ('use', 'ref')):
+                    work.append(st['p']['l'])      # a temporary / a borrow handed to the next wall-clock operation
+                else:
+                    return False
+            t = f.term(b)
+            if t['k'] == 'call' and any(a.get('k') in ('copy', 'move') and a['p']['l'] == l for a in t['args']):
+                nme = strip_generics(t.get('res') or t.get('callee') or '')
+                clock_op = nme.startswith(('std::time::Instant::', '<std::time::Instant as ', 'std::time::Duration::', '<std::time::Duration as '))
+                if not clock_op or depth <= 0:
+                    return False
+                if t['dest']['pr']:
+                    fl = [e for e in t['dest']['pr'] if e['k'] == 'field']
+                    if not (fl and any(str(fl[-1].get('adt', '')).startswith(m) for m in ALLOW_MODULES)):
+                        return False
+                    n_store += 1
+                else:
+                    work.append(t['dest']['l'])
+            if t['k'] == 'switch' and t['d'].get('k') in ('copy', 'move') and t['d']['p']['l'] == l:
+                return False
+    return n_store >= 1
+
+
 def r3_forbidden_sources(ctx):
     ctx.set_rule('C04.R3')
     P = ctx.P
@@ -175,6 +225,9 @@ def r3_forbidden_sources(ctx):
                     if allowed:
                         canary += 1
                         ctx.ok('allowed use of %s in %s (%s)' % (what, short(f.key), allowed), s.where(), nme)
+                    elif what == 'wall clock' and _flows_only_into_profile(f, s):
+                        canary += 1
+                        ctx.ok('wall-clock value in %s flows only into the profiler record (%s)' % (short(f.key), list(ALLOW_MODULES.values())[0]), s.where(), nme)
                     else:
                         ctx.violation('forbidden:%s:%s' % (f.key, nme.split('::')[-1]), '%s (%s) reachable in simulation code — a source of run-to-run nondeterminism' % (what, nme), s.where())
             if s.argtys and 'RandomState' in s.argtys[0] and nme.split('::')[-1] in ITER_METHODS:
@@ -339,21 +392,47 @@ def r5_identity_counters(ctx):
                         break
     ctx.floor('fields carrying identity-counter values', len(t_fields), 2)
     # --- sinks: tainted key inserted into a hashed collection that is iterated somewhere
+    def coll_id(f, s):
+        """identity of the collection a method is called on: the field it lives in, or (function, local) for a local variable"""
+        fld = receiver_field(f.expr_operand(s.args[0], s.b, 'T'))
+        if fld is not None:
+            return fld
+        op = s.args[0]
+        from .engine.helpers import _chase_local
+        for _ in range(6):
+            if op.get('k') not in ('copy', 'move'):
+                return None
+            l = op['p']['l']
+            ds = [d for d in f._defs() if d[0] == l and not d[3]]
+            if len(ds) == 1 and ds[0][2] != 'T':
+                st = f.stmts(ds[0][1])[ds[0][2]]
+                r = st['r']
+                if r['k'] in ('ref', 'rawptr') and not [e for e in r['p']['pr'] if e['k'] != 'deref']:
+                    if not r['p']['pr']:
+                        return ('local', f.key, r['p']['l'])
+                    op = {'k': 'copy', 'p': {'l': r['p']['l'], 'pr': []}}
+                    continue
+                if r['k'] == 'use':
+                    op = r['o']
+                    continue
+            return ('local', f.key, l) if f.local_name(l) != '_%d' % l else None
+        return None
     keyed = {}   # collection field -> insertion site
     for f in fns:
         for s in f.calls():
             if any(s.name.startswith(h) for h in HASHED) and s.name.split('::')[-1] in ('insert', 'entry', 'get_or_insert_with') and len(s.args) > 1:
                 if tainted(f, f.expr_operand(s.args[1], s.b, 'T')):
-                    fld = receiver_field(f.expr_operand(s.args[0], s.b, 'T'))
-                    keyed[fld] = s
+                    fld = coll_id(f, s)
+                    if fld is not None:
+                        keyed[fld] = s
     n_iter = 0
     for f in fns:
         for s in f.calls():
             if s.args and s.name.split('::')[-1] in ITERATE and (any(s.name.startswith(h) for h in HASHED) or (s.argtys and any(h.split('::')[-1] in s.argtys[0] for h in ('HashMap', 'HashSet')))):
                 n_iter += 1
-                fld = receiver_field(f.expr_operand(s.args[0], s.b, 'T'))
-                if fld in keyed:
-                    ctx.violation('identity-keyed-iteration:%s' % fld,
+                fld = coll_id(f, s)
+                if fld is not None and fld in keyed:
+                    ctx.violation('identity-keyed-iteration:%s' % (fld if isinstance(fld, str) else '%s:%s' % (short(fld[1]), f.local_name(fld[2]))),
                                   'the hashed collection `%s` is keyed by a value drawn from a never-reset identity counter and is iterated here: the iteration order then depends on how many ids earlier simulations in this process consumed' % fld,
                                   s.where(), {'key_inserted_at': keyed[fld].where()})
     ctx.ok('no hashed collection keyed by an identity-counter value is iterated (%d tainted fields, %d hashed insertions with tainted keys, %d iterations of hashed collections examined)'
